@@ -445,7 +445,12 @@ class VariableCovarianceGaussianEnergy(LikelihoodEnergyOperator):
         """
         r = FieldAdapter(self._domain[self._kr], self._kr)
         ivar = FieldAdapter(self._domain[self._kr], self._ki).real
-        sc = 1. if self._cplx else 0.5
+        # The expectation of the pull-back of the Euclidean metric over residuals
+        # drawn with inverse variance `ivar` shall be the Fisher metric: the
+        # residual part contributes 1/(4 ivar^2) per real degree of freedom
+        # (one for real, two for complex residuals), the rest has to come from
+        # `sc*log(ivar)`: sc^2 = 1/4 (real) and 1/2 (complex).
+        sc = np.sqrt(0.5) if self._cplx else 0.5
         f = r.adjoint @ (ivar.sqrt()*r) + ivar.adjoint @ (sc*ivar.log())
         return self._dt, f
 
